@@ -23,9 +23,9 @@ from ..rebuild import rebuild  # noqa: E402
 PROP = "C20"
 LEVEL = "exploration"
 RULE = ("case = one generated fully named netlist x {faithful copies: rebuild, clone, EDIF round trip} x both argument orders, "
-        "then every applicable single-fact mutation kind (22 kinds: port direction/width/array-ness, cable width, outer "
+        "then every applicable single-fact mutation kind (26 kinds: port direction/width/array-ness, cable width, outer "
         "connection moved to another instance / another port / another bit, inner connection moved, instance re-pointed to "
-        "a same-shaped cell, property value changed / property added, one library/definition/port/cable/instance dropped or "
+        "a same-shaped cell, property value changed / property added to an instance without any / last property dropped / property appended, one library/definition/port/cable/instance dropped or "
         "added) at a random site x both orders; distinct = shape hash; non-trivial = >=12 mutation kinds applicable")
 ASSUMPTIONS = ["any exception counts as 'raises' (lookups by name raise StopIteration when the named element is gone)",
                "copies for the negative side are rebuilt through the API (clone is not registered with the namespace manager)"]
@@ -238,6 +238,28 @@ def m_property_added(r, b):
     return "EDIF.properties added to instance %s.%s" % (i.parent.name, i.name)
 
 
+def m_property_dropped(r, b):
+    insts = [c for d in defs_of(b) for c in d.children if len(c.get("EDIF.properties", []) or []) >= 1]
+    if not insts:
+        return None
+    i = r.choice(insts)
+    props = [dict(x) for x in i["EDIF.properties"]][:-1]
+    if props:
+        i["EDIF.properties"] = props
+    else:
+        del i["EDIF.properties"]
+    return "last property of instance %s.%s dropped" % (i.parent.name, i.name)
+
+
+def m_property_appended(r, b):
+    insts = [c for d in defs_of(b) for c in d.children if len(c.get("EDIF.properties", []) or []) >= 1]
+    if not insts:
+        return None
+    i = r.choice(insts)
+    i["EDIF.properties"] = [dict(x) for x in i["EDIF.properties"]] + [{"identifier": "APPENDED", "value": 2}]
+    return "a property appended to instance %s.%s" % (i.parent.name, i.name)
+
+
 def m_drop_library(r, b):
     used = set(id(c.reference.library) for d in defs_of(b) for c in d.children)
     used.add(id(b.top_instance.reference.library))
@@ -328,7 +350,7 @@ def m_add_instance(r, b):
 
 MUTATIONS = [m_port_direction, m_port_wider, m_port_narrower, m_port_arrayness, m_cable_wider, m_cable_narrower,
              m_outer_other_instance, m_outer_other_port, m_outer_other_bit, m_inner_other_port, m_inner_other_bit,
-             m_repoint, m_property_value, m_property_added, m_drop_library, m_add_library, m_drop_definition,
+             m_repoint, m_property_value, m_property_added, m_property_dropped, m_property_appended, m_drop_library, m_add_library, m_drop_definition,
              m_add_definition, m_drop_port, m_add_port, m_drop_cable, m_add_cable, m_drop_instance, m_add_instance]
 
 
